@@ -122,6 +122,8 @@ def judge(case):
             return core.not_admitted("moved-pose-out-of-range")
         ox, os_ = _lift(da, r), _lift(db, r)
         tgt = os_ if mv["who"] == "container" else ox
+        if mv.get("touch", True):
+            C.touch(tgt, db if mv["who"] == "container" else da)
         ret = tgt.move(G.Vector(*[float(c) for c in mv["v"]]))
         if mv["use"] == "returned":
             if mv["who"] == "container":
